@@ -779,6 +779,10 @@ func replayC18(c *Ctx, op string, args []string) bool {
 		c18PemCollide(c, unhx(m["a"]), unhx(m["b"]))
 	case "lb.writes":
 		c18LB(c, parseWrites(m["w"]))
+	case "pubkey.hist":
+		c18ReplayHist(c, m)
+	case "auth.hs":
+		c18ReplayHandshake(c, m)
 	case "pubkey.verify":
 		var profile *rsa.PublicKey
 		switch m["der"] {
@@ -1064,4 +1068,7 @@ func genC18(c *Ctx) {
 			}
 		}
 	}
+	// histories on one PublicKey value; the server side of the handshake with secrets of every length
+	c18GenHist(c, svcA, svcB, profA, profB)
+	c18GenHandshake(c)
 }
